@@ -117,3 +117,31 @@ Theorem SRC_C19_from_dict_keys : forall sig d k v,
   In (k, v) (src_from_dict_tc sig d) <-> In (k, v) d /\ existsb (String.eqb k) sig = true.
 Proof. intros sig d k v. apply C19_from_dict_keys. Qed.
 Print Assumptions SRC_C19_from_dict_keys.
+
+(* ---- PGMCompiler.close(): compiled programs are written to export_dir/<name>.pgm, creating a missing directory first ---- *)
+Theorem SRC_C19_close : forall (is_dir : string -> bool) c filename verbose s,
+  let name := match filename with Some f => f | None => cl_filename c end in
+  src_close is_dir c filename verbose s =
+  (Ret tt, s ++ (match cl_export_dir c with
+                 | EmptyString => []
+                 | d => if is_dir d then [] else [(true, d)]
+                 end) ++ [(false, close_target (cl_export_dir c) name)])%list.
+Proof.
+  intros is_dir c filename verbose s name. unfold src_close, close_target. cbv zeta.
+  replace (match filename with None => path_of (cfg_filename c) | Some f => path_of f end) with name by (destruct filename; reflexivity).
+  unfold truthy, truthy_str, path_of, p_with_suffix, pjoin.
+  destruct (cl_export_dir c) as [|a d] eqn:E; cbn [String.eqb negb].
+  - unfold bind, cl_open, ret. reflexivity.
+  - unfold bind, cl_open, cl_mkdirs, ret. destruct (is_dir (String a d)); cbn [app]; [reflexivity|].
+    now rewrite <- app_assoc.
+Qed.
+Print Assumptions SRC_C19_close.
+
+(* the only file opened is the documented target *)
+Corollary SRC_C19_close_target : forall is_dir c filename verbose,
+  filter (fun e => negb (fst e)) (snd (src_close is_dir c filename verbose [])) =
+  [(false, close_target (cl_export_dir c) (match filename with Some f => f | None => cl_filename c end))].
+Proof.
+  intros. rewrite SRC_C19_close. cbn [snd app]. destruct (cl_export_dir c); [reflexivity|]. destruct (is_dir _); reflexivity.
+Qed.
+Print Assumptions SRC_C19_close_target.
